@@ -32,6 +32,7 @@ import (
 	"sync"
 	"sync/atomic"
 	"testing"
+	"time"
 
 	"github.com/mattn/anko/ast"
 	"github.com/mattn/anko/core"
@@ -1093,6 +1094,80 @@ func SharedLibraryReal(round int) string {
 	for i, g := range got {
 		if g != want {
 			return fmt.Sprintf("run %d of %d concurrent runs on child environments of one base (library defined by an earlier run) returned %s; alone it returns %s\n%s", i, runs, g, want, src)
+		}
+	}
+	return ""
+}
+
+var (
+	stormOnce  sync.Once
+	stormFirst [2]string
+)
+
+// FuncTypeStormReal: whatever the interpreter remembers per Go function TYPE (how a function of that type is called,
+// whether it is a script function) is process-wide state shared by every run. A host offers functions of types the
+// interpreter has never seen; here a fresh one per round (func(int64, ...[n]int64) int64) is called in a tight loop by half
+// of the runs while the other half call script functions of several arities, all on separate environments. Every run
+// must yield what the same script yields alone - and what it yielded the first time in this process.
+func FuncTypeStormReal(round int) string {
+	n := 1 + (round*131)%4000
+	i64 := reflect.TypeOf(int64(0))
+	var fts []reflect.Type
+	var hosts []interface{}
+	for k := 0; k < 3; k++ {
+		ft := reflect.FuncOf([]reflect.Type{i64, reflect.SliceOf(reflect.ArrayOf(n+4000*k, i64))}, []reflect.Type{i64}, true)
+		fts = append(fts, ft)
+		hosts = append(hosts, reflect.MakeFunc(ft, func(a []reflect.Value) []reflect.Value {
+			return []reflect.Value{reflect.ValueOf(a[0].Int() + 1)}
+		}).Interface())
+	}
+	ft := fts[0]
+	srcs := [2]string{
+		"func a0() { return 1 }\nfunc a1(x) { return x }\nfunc a2(x, y) { return y }\nfunc a5(a, b, c, d, e) { return e }\nfunc av(x...) { return len(x) }\nfunc ad() { defer a0(); return 2 }\nl = []\nfor i = 0; i < 12; i++ { l += [a0(), a1(i), a2(i, 3), a5(1, 2, 3, 4, i), av(1, 2), ad()] }\nl",
+		"func hd(i) { defer hostT(i); return hostT(i) }\nl = []\nfor i = 0; i < 12; i++ { l += [hostT(i), hd(i), hostU(i), hostV(i)] }\nl",
+	}
+	run := func(k int) string {
+		e := env.NewEnv()
+		e.Define("hostT", hosts[0])
+		e.Define("hostU", hosts[1])
+		e.Define("hostV", hosts[2])
+		v, err := vm.Execute(e, nil, srcs[k])
+		return fmt.Sprintf("%v|%v", v, err)
+	}
+	alone := [2]string{run(0), run(1)}
+	stormOnce.Do(func() { stormFirst = alone })
+	for k := range alone {
+		if alone[k] != stormFirst[k] {
+			return fmt.Sprintf("process-wide state was left behind by earlier concurrent runs: run alone now, the script below yields %s; the first time in this process it yielded %s\n%s", alone[k], stormFirst[k], srcs[k])
+		}
+	}
+	const runs = 10
+	var wg sync.WaitGroup
+	msgs := make([]string, runs)
+	start := make(chan struct{})
+	end := time.Now().Add(20 * time.Millisecond)
+	for i := 0; i < runs; i++ {
+		wg.Add(1)
+		go func(i int) {
+			defer wg.Done()
+			defer func() {
+				if x := recover(); x != nil {
+					msgs[i] = fmt.Sprintf("panic: %v", x)
+				}
+			}()
+			<-start
+			for time.Now().Before(end) && msgs[i] == "" {
+				if g := run(i % 2); g != alone[i%2] {
+					msgs[i] = fmt.Sprintf("one of %d concurrent runs on separate environments (half of them calling a host function of type %v, half calling script functions) yielded %s; alone it yields %s\n%s", runs, ft, g, alone[i%2], srcs[i%2])
+				}
+			}
+		}(i)
+	}
+	close(start)
+	wg.Wait()
+	for _, m := range msgs {
+		if m != "" {
+			return m
 		}
 	}
 	return ""
